@@ -21,6 +21,8 @@ def describe(sig, st):
         return "recorded slot trace breaks rule %s of EncVMTrace.tla" % p[1]
     if p[0] == "cycle":
         return "a value with a cycle through %s: %s" % (p[2] if len(p) > 2 else "?", p[1])
+    if p[0] == "stack":
+        return "a value living in the caller's frame is encoded wrongly by %s once a MarshalJSON callback has grown (moved) the stack: %s" % (p[2] if len(p) > 2 else "?", p[1])
     if p[0] == "crash":
         return "the process dies (%s) while encoding" % p[1]
     return "encoding %s for shape %s (%s)" % (p[1].replace("-", " "), p[2] if len(p) > 2 else "", ", ".join(p[3:]))
@@ -85,7 +87,9 @@ def run(tier, scratch, record=False):
         rule="90 recursive / interface-bearing struct shapes (member: self pointer, map[string]interface{}, interface{}, slice of self, "
              "interface + self pointer, pointer slices and maps; 0/1/3/4/7 scalar fields before x 0/1/4 after) and their holders, nesting "
              "depths %s, reached directly / by pointer / inside []interface{} / inside map[string]interface{}, on the four interpreters, "
-             "with GC-forcing and stack-growing marshalers inside; 8 kinds of cycles x 4 interpreters; slot traces of depths <= %d "
+             "with GC-forcing and stack-growing marshalers inside; 8 kinds of cycles x 4 interpreters; after-failure histories; a value in the "
+             "caller's frame (address of a local that nothing else lets escape) through 12 entry points x stack growth 0/40/400 frames in a "
+             "callback x released stack recycled or not; slot traces of depths <= %d "
              "validated by TLC; non-trivial = distinct (shape, depth) pairs" % (params["depths"], params["trace_depth"]),
         exhaustive=False, traces_validated_against_impl=nruns, trace_events_validated=nev)
     f = vlib.Findings(PROP)
